@@ -54,6 +54,12 @@ def corpus_cases(which):
                     ("iface", "IClient", "IBase", [E("BUSY"), E("DENIED"), M("send")]), ("iface", "IOther", "IBase", [M("send"), E("DENIED"), E("BUSY")])]))
     out.append(fs1([("iface", "IFoo", None, [E("X"), E("Y"), M("a"), M("b")]), ("iface", "IBar", None, [M("b"), E("Y"), M("a"), E("X")]),
                     ("iface", "IBaz", "IBar", [E("Z"), M("c")]), ("iface", "IQux", "IFoo", [M("c"), E("Z")])]))
+    # names that differ only in letter case (one backend upper-cases error names): every spelling keeps
+    # its own number in every backend; within one interface, along a chain, with methods in between
+    out.append(fs1([("iface", "IDoor", None, [E("Busy"), M("open"), E("OTHER"), E("BUSY"), E("busy"), M("Open")])]))
+    out.append(fs1([("iface", "IBase", None, [E("Busy"), E("Closed"), M("open")]), ("iface", "IDoor", "IBase", [E("BUSY"), M("close"), E("CLOSED"), E("closed")]),
+                    ("iface", "IGate", "IDoor", [E("bUSY"), E("Late")])]))
+    out.append(fs1([("iface", "ICase", None, [M("get"), M("Get"), M("GET"), E("Ab"), E("aB"), E("AB"), E("ab")])]))
     # a name of a non-immediate ancestor declared again (method, error, constant), distance 2..4
     for dist in (2, 3, 4):
         for kind in ("method", "error", "const"):
@@ -95,6 +101,31 @@ def gallina_table(rows, zscope=False):
         inner = "; ".join('("%s", %s%s)' % (m, val(v), "%Z" if zscope else "") for m, v in lst)
         items.append('("%s", [%s])' % (iface, inner))
     return "[%s]" % "; ".join(items)
+
+
+def unfold_case(got, ifaces, fs):
+    """Rust and Java upper-case error names.  got: emitted (NAME, value) rows; ifaces: the interfaces
+    whose errors the rows cover, root first.  The rows called N, by ascending value, are given the
+    IDL spellings of the declared errors that upper-case to N, in declaration order (the order in which
+    values ascend); with a row missing, extra or renumbered some spelling ends up with a value the
+    MIR does not give it (or with no row)."""
+    allif = {d[1]: d for f in fs["files"] for d in f["decls"] if d[0] == "iface"}
+    decl = {}
+    for c in ifaces:
+        for m in (allif[c][3] if c in allif else []):
+            if m[0] == "error":
+                decl.setdefault(m[1].upper(), []).append(m[1])
+    if all(len(v) == 1 and v[0] == k for k, v in decl.items()):
+        return got
+    byn = {}
+    for n, v in got:
+        byn.setdefault(n, []).append(v)
+    out = []
+    for n, vs in byn.items():
+        names = decl.get(n, [])
+        for k, v in enumerate(sorted(vs)):
+            out.append((names[k] if k < len(names) else n, v))
+    return out
 
 
 def scrape_tables(root, fs, emitted, which):
@@ -182,8 +213,11 @@ def scrape_tables(root, fs, emitted, which):
             r = []
             for c in chain_names(fs, i):
                 txt = scrape.rd(scrape.rust_file_for(rs, c))
-                for mm in re.finditer(r"pub const (\w+): Error = Error\(unsafe \{ crate::object::Error::new_unchecked\((-?\d+)\) \}\);", txt):
-                    r.append((mm.group(1), int(mm.group(2))))
+                # the Rust backend upper-cases error names: the k-th constant called N belongs to the
+                # k-th error the interface declares whose name upper-cases to N (a constant that is
+                # missing or extra then shows as a missing or foreign row)
+                got = [(mm.group(1), int(mm.group(2))) for mm in re.finditer(r"pub const (\w+): Error = Error\(unsafe \{ crate::object::Error::new_unchecked\((-?\d+)\) \}\);", txt)]
+                r += unfold_case(got, [c], fs)
             rows.append((i, r))
         out.append(("rust-errors", rows))
         jd = os.path.join(od, "java")
@@ -195,7 +229,7 @@ def scrape_tables(root, fs, emitted, which):
             for mm in re.finditer(r"int %s_(\w+) = (-?\d+);" % re.escape(i), body):
                 if not mm.group(1).startswith("OP_"):
                     r.append((mm.group(1), int(mm.group(2))))
-            rows.append((i, r))
+            rows.append((i, unfold_case(r, list(reversed(chain_names(fs, i))), fs)))
         if java_ok:
             out.append(("java-errors", rows))
         # constants of type int32 are printed with the same pattern: keep declared error names only
